@@ -956,8 +956,16 @@ def mon_c11(sc, res):
             owners.add(a2c.get(e["owner"]))
     if owners & faulty:
         return fails
-    healed = D.Scenario([st for st in sc.steps if st[0] != "wmode" and not (st[0] == "raw" and st[1].startswith("ACCEPTFAIL"))],
-                        sc.variant, sc.users, sc.groups, sc.name + "(healed)")
+    hsteps = []
+    for st in sc.steps:
+        if st[0] == "wmode":
+            continue
+        if st[0] == "raw" and st[1].startswith("ACCEPTFAIL"):
+            # the healed run still wakes the listener (queued connection attempts must be accepted), it just does not fail
+            hsteps.append(("raw", "EPOLL l%s:IN" % st[1].split()[1]))
+            continue
+        hsteps.append(st)
+    healed = D.Scenario(hsteps, sc.variant, sc.users, sc.groups, sc.name + "(healed)")
     res2 = dcheck.run_one(healed)
     a, b = _streams(sc, res), _streams(healed, res2)
     # connection numbering is by CONNECT order, identical in both runs
@@ -982,8 +990,53 @@ def mon_c11(sc, res):
     return fails[:6]
 
 
+def mon_closes(sc, res):
+    """A connection is dropped by the daemon only for reasons of its own: its stream ended or failed, it sent something the
+    protocol rejects, or a response to its own request could not be written.  Never because of another peer."""
+    fails = []
+    itr = res["itr"]
+    cfgv = D.C.config_values(sc.variant)
+    maxmsg = int(cfgv["CONFIG_MAX_MESSAGE_SIZE"])
+    for si, st in enumerate(sc.steps):
+        if not itr.closed[si]:
+            continue
+        own_end = set()
+        bad_input = set()
+        subs = [st] if st[0] != "mixed" else list(st[1])
+        for sub in subs:
+            if sub[0] in ("eof", "rst", "err", "partial", "raw", "writable", "connect", "connect_http"):
+                if len(sub) > 1 and isinstance(sub[1], int):
+                    own_end.add(sub[1])
+                if sub[0] == "raw":
+                    own_end.update(range(0, 64))     # literal harness lines: not judged
+        for c, v in step_requests(st, itr.replies, si):
+            text_len = 0
+            raw = None
+            for sub in subs:
+                if sub[0] == "msg" and sub[1] == c:
+                    raw = sub[2]
+                    text_len = max(text_len, len(raw if isinstance(raw, bytes) else D.jtext(raw)))
+            if v is None or text_len > maxmsg:
+                bad_input.add(c)
+                continue
+            rs, whole = flatten_requests(v)
+            if not whole or not (is_obj(v) or isinstance(v, list)):
+                bad_input.add(c)
+            for r in rs:
+                if cget(r, b"method") is None and (has_member(r, b"result") or has_member(r, b"error")) and not isinstance(cget(r, b"id"), bytes):
+                    bad_input.add(c)
+        failed_to = set(s[0] for s in itr.sends[si] if not s[1])
+        for c in itr.closed[si]:
+            if c not in itr.ever_peer:
+                continue
+            if c in own_end or c in bad_input or c in failed_to:
+                continue
+            fails.append("step %d: the daemon dropped c%d although its stream did not end, it sent nothing the protocol rejects and no write to it failed" % (si, c))
+    return fails[:4]
+
+
 def mon_c11_all(sc, res):
-    return mon_c11(sc, res) + mon_c02(sc, res) + mon_c03(sc, res)
+    return mon_c11(sc, res) + mon_closes(sc, res) + mon_c02(sc, res) + mon_c03(sc, res)
 
 
 # --------------------------------------------------------------------------- C14 (deadlines)
